@@ -186,7 +186,7 @@ class PortMachine(Machine):
         cfg = self.cfg
         if not self.slots or (len(self.slots) < 3 and s.random() < 0.1):
             plat = w.choice(cfg["platforms"])
-            version = w.choice(["", "", "15.2", "16.9", "9.3"])
+            version = w.choice(["", "", "15.2", "16.9", "9.3", "17.3"])
             proto = w.choice(["tcp", "udp"])
             return dict(op="port_new", line=self._gen_line(w, plat, version, proto), proto=proto,
                         platform=plat, version=version, port_nr=w.random() < 0.3)
@@ -195,6 +195,10 @@ class PortMachine(Machine):
         r = s.random()
         if r < 0.03:
             return dict(op="port_clear", t=t, how=s.choice(["line", "line", "protocol"]))
+        if r < 0.045:
+            # a caller edits the name table it got from the public PortName accessor
+            return dict(op="port_names_scribble", proto=s.choice(["tcp", "udp"]),
+                        platform=s.choice(["ios", "nxos", "asa"]))
         if cfg["bad"] and r < 0.06:
             # another client of the same process tries an expression outside the domain
             # (operands beyond 1..65535); whatever that gives, live expressions are not its business
@@ -592,6 +596,26 @@ class PortMachine(Machine):
         if self._observe(c) != self._observe(slot["obj"]):
             self._fail("C08.copy", "copy() differs from source")
         slot["obj"] = c
+        return "ok"
+
+    def _op_port_names_scribble(self, op):
+        """A caller merges the name tables of two platforms in the dict that the public accessor
+        PortName.names() returned (and empties the dict returned by ports()): the dicts are the
+        caller's; every live expression still spells and reads its own platform's names."""
+        others = [p_ for p_ in ("ios", "nxos", "asa") if p_ != op["platform"]]
+        try:
+            d = PortName(protocol=op["proto"], platform=op["platform"]).names()
+            for o in others:
+                d.update(PortName(protocol=op["proto"], platform=o).names())
+            d["bogus-name"] = 7
+            PortName(protocol=op["proto"], platform=op["platform"]).ports().clear()
+        except Exception:  # noqa
+            return "noop"
+        self.faults["name_table_scribbled"] += 1
+        for slot in self.slots:
+            fresh = self._build(slot)
+            self._check(fresh, slot, "new object after the returned name table was edited")
+            self._check(slot["obj"], slot, "live object after the returned name table was edited")
         return "ok"
 
     def _op_port_foreign_bad(self, op):
